@@ -18,7 +18,7 @@ and the text is parsed by the real ``beanquery.parser.parse``;  the result must 
     * nary-bool same-kind / other-kind boolean children in several argument positions at once, NOT and
                 BETWEEN (which contains the word AND) inside And / Or.
     * expr-d3   (thorough) chains parent x slot x middle x slot x bottom: all 54 x 54 slot pairs, bottom over
-                18 representatives (one per rung of the ladder and per structural class, ``D3_BOTTOM``).
+                14 representatives (one per rung of the ladder and per structural class, ``D3_BOTTOM``).
     * literal   every literal spelling (text -> value table: NULL, booleans, integers with leading zeros,
                 `1.` `.5` `1.50`, dates incl. month ends and leap day, both quotings, quotes inside strings,
                 comment openers inside strings) in 4-6 contexts, and all 399 lists of 1..3 literals over a
@@ -35,10 +35,12 @@ and the text is parsed by the real ``beanquery.parser.parse``;  the result must 
     * balances / journal / print   every subset of their optional parts x every FROM form (thorough; quick
                 thins the third summary function / the odd account strings).
     Prints per AST (``prints_for``): both parenthesisation modes always.  A fully parenthesised text costs
-    about 3x a minimal one to parse, so: expr-d2 quick = minimal in 3 spellings (plain / spread over newlines
-    and tabs with swapped letter case / mixed case with comments between all tokens) + full in a spelling
-    rotating with the cell; thorough = minimal in 4 spellings (+ tight) + full in 2 rotating spellings;
-    statements 3 (quick) / 4 (thorough) prints with rotating spelling; expr-d3 minimal always + full for every
+    about 3x a minimal one to parse, so: expr-d2 quick = one minimal + one full print per cell (a leaf child gets its full
+    print under the first slot of each parent only), the spelling (plain / spread
+    over newlines and tabs with swapped letter case / mixed case with comments between all tokens) rotating
+    with the cell index so that every parent slot meets every (mode, spelling) many times; thorough = minimal
+    in 4 spellings (+ tight) + full in 2 rotating spellings; statements: minimal always + full for every other AST (quick) / 4 prints
+    (thorough), rotating spelling; expr-d3 minimal always + full for every
     8th chain.  Over each group every (mode, spelling) combination occurs.
 
 (b) Parser = grammar.  A parser is generated from $VERIF_REPO/beanquery/parser/bql.ebnf with
@@ -47,14 +49,15 @@ and the text is parsed by the real ``beanquery.parser.parse``;  the result must 
     from a temporary directory that is removed at once, and run with the same semantics class on the texts
     of the corpus: the printed ASTs of (a) plus rejected / nearly valid texts -- all token sequences of
     length <= 2 over a 50-token alphabet alone and after `SELECT a` (5 102 texts), every single-token
-    deletion / substitution / insertion of 40 valid statements (substituted / inserted token from 4 (quick) /
-    24 (thorough) tokens), 140 literal and clause edge cases.  Both parsers must return equal ASTs, or both
+    deletion / substitution / insertion of 40 valid statements (substituted / inserted token from 2 (quick) /
+    16 (thorough) tokens), 140 literal and clause edge cases.  Both parsers must return equal ASTs, or both
     raise a TatSu ParseError at the same position, or both let the same foreign exception class escape
     (ValueError for 2020-13-45 ... is C05's business).
     Every text is parsed by both parsers in the thorough tier and whenever the generated source differs
     from parser.py.  In the quick tier, when the generated source is byte-identical to the shipped module
-    (same code, same semantics class, deterministic => same behaviour), the second parse is spent on one
-    print per AST and on every rejected / literal text only (set C06_DIFF_ALL=1 to force all).
+    (same code, same semantics class, deterministic => same behaviour), the second parse is spent on the
+    first print of every AST (of every other cell of the depth-2 matrix) and on every rejected / literal text
+    only (set C06_DIFF_ALL=1 to force all).
 
 Scope / weakest readings
     * only ASTs that have a BQL text are generated (vt.unparse.NotExpressible lists the conditions);
@@ -372,7 +375,7 @@ def literal_cases(al):
             yield ('list', n), f'SELECT {text}', _sel([A.Target(A.Constant([v for _, v in combo]), None)])
 
 
-IDENT_PLAIN = ['a', 'z9', '_', '_x', 'x_', 'a_b_c', 'abc123', '__init__', 'o', 'n', 's', 'e5', 'x' * 40]
+IDENT_PLAIN = ['a', '_', '_x', 'x_', 'a_b_c', 's', 'x' * 40, 'z9', 'abc123', '__init__', 'o', 'n', 'e5']
 
 
 def ident_positions(al):
@@ -403,15 +406,18 @@ def ident_positions(al):
 def ident_cases(al, thorough=True):
     """(label, identifier, ast).  Reserved words followed by alphanumerics must be plain identifiers
     (TatSu's name guard); reserved words followed by '_' are the finding described in the module docstring."""
-    names = [(n, 'plain') for n in IDENT_PLAIN]
+    names = [(n, 'plain') for n in (IDENT_PLAIN if thorough else IDENT_PLAIN[:7])]
     for w in sorted(RESERVED):
         names += [(w + '1', 'reserved+alnum'), (w + '_x', 'reserved+underscore')]
         if thorough:
             names += [(w + 'x', 'reserved+alnum'), (w[0] + w, 'alnum+reserved'), ('_' + w, 'underscore+reserved'), (w + '_', 'reserved+underscore')]
+    key_positions = ('first-target', 'not-operand', 'and-argument', 'from-expression', 'summary-function')
     for name, cls in names:
         if name in RESERVED:
             continue
         for pos, build in ident_positions(al):
+            if not thorough and cls == 'reserved+alnum' and pos not in key_positions:
+                continue        # quick: the positions where a word token is tried before an identifier
             yield (cls, pos), name, build(name)
 
 
@@ -509,9 +515,11 @@ def select_cases(al, thorough):
         yield ('orderby', len(o)), _sel(targets, A.Table(al.table), where, A.GroupBy([1, 2], None), o, A.PivotBy([1, 2]), 3)
     for p in pivot_shapes(al):
         yield ('pivotby', 2), _sel(targets, None, None, A.GroupBy([1, 2], None), None, A.PivotBy(p))
-    for f in select_from_forms(al):
-        yield ('from', type(f).__name__), _sel(targets, f)
-        yield ('from', type(f).__name__), _sel(A.Asterisk(), f, where, None, [A.OrderBy(1, A.Ordering.ASC)], None, 2, True)
+    for n, f in enumerate(select_from_forms(al)):
+        if thorough or n % 2 == 0:
+            yield ('from', type(f).__name__), _sel(targets, f)
+        if thorough or n % 2 == 1:
+            yield ('from', type(f).__name__), _sel(A.Asterisk(), f, where, None, [A.OrderBy(1, A.Ordering.ASC)], None, 2, True)
     # targets: aliases, many targets, every expression class as a target next to an alias
     many = [A.Target(A.Column(n), n + '_') for n in al.fill[0] + al.fill[1]]
     yield ('targets', len(many)), _sel(many)
@@ -519,20 +527,25 @@ def select_cases(al, thorough):
 
 
 def other_statement_cases(al, thorough):
+    """BALANCES [AT f] [FROM ...] [WHERE ...], JOURNAL [account] [AT f] [FROM ...], PRINT [FROM ...].
+    thorough: the full product (every optional-part subset x every FROM form x summary functions / accounts);
+    quick: every FROM form with a rotating choice of the other parts + every subset of the optional parts with
+    two FROM forms."""
     forms = [None] + list(from_forms(al))
     where = A.And([A.Match(A.Column('account'), A.Constant('Assets')), A.Not(A.Column('flag'))])
     funcs = [None, 'cost', al.func1]
     accounts = [None, 'Assets:Cash', "it's", '']
     i = 0
-    for f in forms:
+    for fi, f in enumerate(forms):
+        anchor = fi in (0, 1, len(forms) - 1)          # no FROM, the first and the last form: full product in quick too
         for fn in funcs:
             for wh in (None, where):
                 i += 1
-                if thorough or fn != al.func1 or i % 3 == 0:
+                if thorough or (anchor and fn != al.func1) or i % 6 == fi % 6:
                     yield ('balances', (fn is not None, f is not None, wh is not None)), A.Balances(fn, f, wh)
             for acc in accounts:
                 i += 1
-                if thorough or (fn != al.func1 and acc in (None, 'Assets:Cash')) or i % 5 == 0:
+                if thorough or (anchor and fn != al.func1 and acc in (None, 'Assets:Cash')) or i % 12 == fi % 12:
                     yield ('journal', (acc is not None, fn is not None, f is not None)), A.Journal(acc, fn, f)
         yield ('print', (f is not None,)), A.Print(f)
 
@@ -545,8 +558,8 @@ TOKEN_ALPHABET = [
     'IN', 'IS', 'NULL', '#t', '.', '[', ']', '%s', 'AS', 'DISTINCT', 'LIMIT', 'BALANCES', 'PRINT', 'OPEN', 'ON', 'CLOSE', 'CLEAR',
     ';', '/*', '*/', '=', '<', 'BETWEEN', 'PIVOT', 'HAVING', 'DESC', 'JOURNAL', 'AT', '%(x)s', '1.5', 'TRUE', 'OR',
 ]
-EDIT_ALPHABET_QUICK = ['a', '(', ',', 'NOT']
-EDIT_ALPHABET_THOROUGH = ['SELECT', 'FROM', 'WHERE', 'BY', 'a', '1', "'s'", '2020-01-01', '(', ')', ',', '-', '*', 'AND', 'NOT', 'IN', 'NULL', '#t', '.', '%s', 'AS', ';', '/*', '=']
+EDIT_ALPHABET_QUICK = ['a', ',']
+EDIT_ALPHABET_THOROUGH = ['SELECT', 'FROM', 'BY', 'a', '1', "'s'", '(', ')', ',', '-', 'AND', 'NOT', 'NULL', '#t', '.', '/*']
 
 VALID_CORPUS = [
     "SELECT a",
@@ -624,7 +637,7 @@ def edits(thorough):
                 if t != toks[i]:
                     cands.append(toks[:i] + [t] + toks[i + 1:])
         for i in range(len(toks) + 1):
-            for t in alphabet:
+            for t in (alphabet if thorough else alphabet[:1]):
                 cands.append(toks[:i] + [t] + toks[i:])
         for c in cands:
             text = ' '.join(c)
@@ -651,11 +664,10 @@ ALL6 = [(p, s) for p in ('minimal', 'full') for s in (0, 1, 2)]
 ALL8 = [(p, s) for p in ('minimal', 'full') for s in (0, 1, 2, 3)]
 
 # bottom level of the depth-3 chains: one representative per rung of the ladder and per structural class
-D3_BOTTOM = ['Or2', 'And2', 'Not', 'Equal', 'In', 'NotIn', 'IsNull', 'Between', 'Add', 'Sub', 'Mul', 'Neg', 'Attribute',
-             'Function1', 'SelectTarget', 'Column', 'Integer', 'List']
+D3_BOTTOM = ['Or2', 'And2', 'Not', 'Equal', 'NotIn', 'IsNull', 'Between', 'Add', 'Mul', 'Neg', 'Attribute', 'SelectTarget', 'Column', 'List']
 
 
-def prints_for(group, thorough, idx):
+def prints_for(group, thorough, idx, light=False):
     """Which (parens, style) prints the idx-th AST of a group gets.  The first print is always a minimal one.
     A fully parenthesised text costs about three times a minimal one to parse (every pair of parentheses
     re-enters the whole expression chain of the PEG), so the minimal mode -- the one that carries the
@@ -664,7 +676,7 @@ def prints_for(group, thorough, idx):
     if group in ('expr-d2', 'nary-bool'):
         if thorough:
             return [('minimal', 0), ('minimal', 1), ('minimal', 2), ('minimal', 3), ('full', idx % 4), ('full', (idx + 2) % 4)]
-        return [('minimal', 0), ('minimal', 1), ('minimal', 2), ('full', idx % 3)]
+        return [('minimal', idx % 3)] + ([] if light else [('full', (idx + 1) % 3)])
     if group == 'ident':
         if thorough:
             return [('minimal', idx % 4), ('full', (idx + 1) % 4)]
@@ -675,7 +687,7 @@ def prints_for(group, thorough, idx):
         r = idx % 4
         return [('minimal', r), ('full', (r + 1) % 4), ('minimal', (r + 2) % 4), ('full', (r + 3) % 4)]
     r = idx % 3
-    return [('minimal', r), ('full', (r + 1) % 3), ('minimal', (r + 2) % 3)]
+    return [('minimal', r)] + ([('full', (r + 2) % 3)] if idx % 2 == 0 else [])
 
 
 def units(tier, seed, diff_all=True):
@@ -689,14 +701,19 @@ def units(tier, seed, diff_all=True):
     def wrap(e):
         return _sel([A.Target(e, None)])
 
-    def emit(group, label, node, idx):
-        for j, (p, s) in enumerate(prints_for(group, thorough, idx)):
-            yield ('ast', group, label, node, p, s, seed + idx + j, diff_all or j == 0)
+    def emit(group, label, node, idx, light=False):
+        for j, (p, s) in enumerate(prints_for(group, thorough, idx, light)):
+            # second parser: always, or (quick, byte-identical sources) on the first print of every AST -- of every
+            # other cell for the big expression matrix
+            diff = diff_all or (j == 0 and (group != 'expr-d2' or idx % 2 == 0))
+            yield ('ast', group, label, node, p, s, seed + idx + j, diff)
 
+    leaf_names = {name for name, _ in leaves(al)}
     idx = 0
     for label, e in matrix(al, 2):
         idx += 1
-        yield from emit('expr-d2', label, wrap(e), idx)
+        # quick: a leaf child gets its fully parenthesised print under the first slot of each parent only
+        yield from emit('expr-d2', label, wrap(e), idx, light=(not thorough and label[2] in leaf_names and label[1] > 0))
     for j, e in enumerate(boolean_extras(al)):
         idx += 1
         yield from emit('nary-bool', ('extra', j), wrap(e), idx)
@@ -752,7 +769,7 @@ def underscore_after_reserved(name):
     return any(name.startswith(w + '_') for w in RESERVED)
 
 
-def check_unit(u, acc, record_case=True):
+def check_unit(u, acc):
     """Run one work unit on both parsers; returns the list of (fingerprint, what, case)."""
     out = []
     if u[0] == 'ast':
@@ -891,7 +908,8 @@ def run(ctx):
                 'nearly-valid corpus; every case is parsed by the shipped and by the regenerated parser.  distinct & non-trivial = distinct '
                 'texts (set of text hashes); trivial texts do not exist in the enumeration (every text has at least one token or is a listed edge case)',
         'exhaustive': True,
-        'bound': ('expression matrix depth 3, all kinds at all three levels; statements: every clause subset x target shape' if ctx.thorough
+        'bound': (f'expression matrix depth 2 complete + depth-3 chains (all 54 x 54 slot pairs x {len(D3_BOTTOM)} bottom representatives); '
+                  'statements: every clause subset x target shape' if ctx.thorough
                   else 'expression matrix depth 2; statements: every clause subset with rotating target shape'),
         'expression_kinds': nkinds, 'operand_slots': nslots, 'child_alphabet': nchildren,
         'matrix_cells_depth2_expected': nslots * nchildren,
